@@ -17,6 +17,10 @@ type Def struct {
 	// Explain says which structural clause is decided; NotCov what is not.
 	Explain, NotCov string
 	Assumptions     []string
+	// Technique names the deciding method for MANIFEST.
+	Technique string
+	// NA, when set, marks the property as not applicable (no check) with this reason.
+	NA string
 }
 
 var registry = map[string]*Def{}
